@@ -51,8 +51,8 @@ func init() {
 	})
 	property(&Property{
 		ID:      "C13",
-		Rules:   []string{"SX-nl-schema", "SX-nl-enum", "SX-sp-schema", "SX-sp-enum", "NC-1", "SX-comment-schema", "SX-nl-schema-deep", "SX-sp-schema-deep", "SX-comment-schema-deep", "T-rawkey", "T-hex", "T-escape"},
-		Explain: "T-rawkey / T-hex / T-escape: keys are matched in decoded form; \\uXXXX digits decode as hexadecimal in either case for all 256 byte values at each digit position; the two-character escapes decode as RFC 8259 says for all 256 bytes after the backslash. SX-comment-schema: in every reachable comment state of the schema scanner a byte either delivers no lexical event or leaves the comment, so comments are invisible to the loader (line and node counting). Over the automaton extracted from the schema scanner and the enum-rule scanner (abstract interpretation of Next(), every reachable abstract state up to the stack bound / node cap): LF and CR have identical effect in every state (verdict, events with spans, successor state), so LF, CR and CRLF spellings scan alike; space and tab have identical effect in every state outside content states (string bodies, annotation/comment text, bare rule names — listed with reasons), so indentation style does not change the scan. NC-1: every comparison of a lexeme's text with a rule name (enum, type, or, the names in the rule constructor table) is made on the unquoted text, so quoted and bare rule names are equivalent.",
+		Rules:   []string{"SX-nl-schema", "SX-nl-enum", "SX-sp-schema", "SX-sp-enum", "NC-1", "SX-comment-schema", "SX-nl-schema-deep", "SX-sp-schema-deep", "SX-comment-schema-deep", "T-rawkey", "T-hex", "T-escape", "SX-eol-schema", "SX-eol-enum", "SX-blank-json", "SX-blank-schema", "SX-blank-enum", "T9"},
+		Explain: "T9 (const part): a const rule compares strings in decoded form, so a document that spells the same string with other escape sequences gets the same verdict. SX-blank-*: a space accepted without an event and without handing over to another step function leaves the scanner in the same abstract state, so a mere blank sets no flag (the array-has-an-item flag used to be set by a blank after [). SX-eol-schema / SX-eol-enum: in every reachable inline-comment and inline-annotation state (including the one right after the opening # or //) a line break ends the comment and is delivered as a new-line event, so an empty comment does not swallow the next line. T-rawkey / T-hex / T-escape: keys are matched in decoded form; \\uXXXX digits decode as hexadecimal in either case for all 256 byte values at each digit position; the two-character escapes decode as RFC 8259 says for all 256 bytes after the backslash. SX-comment-schema: in every reachable comment state of the schema scanner a byte either delivers no lexical event or leaves the comment, so comments are invisible to the loader (line and node counting). Over the automaton extracted from the schema scanner and the enum-rule scanner (abstract interpretation of Next(), every reachable abstract state up to the stack bound / node cap): LF and CR have identical effect in every state (verdict, events with spans, successor state), so LF, CR and CRLF spellings scan alike; space and tab have identical effect in every state outside content states (string bodies, annotation/comment text, bare rule names — listed with reasons), so indentation style does not change the scan. NC-1: every comparison of a lexeme's text with a rule name (enum, type, or, the names in the rule constructor table) is made on the unquoted text, so quoted and bare rule names are equivalent.",
 		Assume: []string{
 			"comment placement, inline versus multi-line annotation equivalence, quoted versus bare rule names, rule order and escape normalisation are not decided by these rules",
 			"the schema scanner's state space is explored breadth-first up to a node cap (5000 states quick)",
@@ -64,8 +64,8 @@ func init() {
 	})
 	property(&Property{
 		ID:      "C14",
-		Rules:   []string{"LEN-trim", "LEN-json", "LEN-schema", "LEN-enum", "LEN-json-deep", "LEN-schema-deep", "LEN-enum-deep"},
-		Explain: "LEN-trim reads off each Length() method's own code (abstract interpretation with Next() replaced by a staged oracle delivering symbolic lexemes) what it holds before trimming — End of the last lexeme + k, and what the end-top marker does to it — and that the trimming loop steps back over blank bytes one at a time from data[P-1]. LEN-json / LEN-schema / LEN-enum walk the product of the scanner model extracted from Next() in length mode with the RFC 8259 reference transducer in trailing mode, for every byte value in every reachable state pair up to nesting 2, carrying as ghost state where the top-level value ended (V), where the first foreign byte is (F) and the value Length() would hold (G), as offsets from the byte just consumed. Wherever the scan can stop — the end-top marker (foreign byte directly after the value, after blanks, or one byte late), or end of input — V+1 <= G <= F must hold, so that trimming lands exactly on the length of the value; a text cut short inside a value must yield an error, and a foreign byte after a complete value must not.",
+		Rules:   []string{"LEN-trim", "LEN-json", "LEN-schema", "LEN-enum", "LEN-json-deep", "LEN-schema-deep", "LEN-enum-deep", "SX-eol-schema", "SX-eol-enum"},
+		Explain: "SX-eol-*: a trailing inline comment or note ends at its line break, so the length does not run over the next line of the enclosing text. LEN-trim reads off each Length() method's own code (abstract interpretation with Next() replaced by a staged oracle delivering symbolic lexemes) what it holds before trimming — End of the last lexeme + k, and what the end-top marker does to it — and that the trimming loop steps back over blank bytes one at a time from data[P-1]. LEN-json / LEN-schema / LEN-enum walk the product of the scanner model extracted from Next() in length mode with the RFC 8259 reference transducer in trailing mode, for every byte value in every reachable state pair up to nesting 2, carrying as ghost state where the top-level value ended (V), where the first foreign byte is (F) and the value Length() would hold (G), as offsets from the byte just consumed. Wherever the scan can stop — the end-top marker (foreign byte directly after the value, after blanks, or one byte late), or end of input — V+1 <= G <= F must hold, so that trimming lands exactly on the length of the value; a text cut short inside a value must yield an error, and a foreign byte after a complete value must not.",
 		Assume: []string{
 			"the embedded text is plain JSON (values, arrays of scalars for enums): annotations, comments, type shortcuts and other JSight-only syntax after or inside the schema are not walked by this product (annotation and comment starters are not treated as foreign bytes)",
 			"that Check accepts the prefix with the same meaning is C05/C06 for JSON (same scanner, same events); for schemas it is not decided here",
@@ -122,7 +122,7 @@ func init() {
 	property(&Property{
 		ID:      "C02",
 		Rules:   []string{"T3", "T4", "T6", "T9", "T14", "T-cmp", "T-enum", "T-formats"},
-		Explain: "T-formats: the regex rule accepts iff an RE2 search in the decoded string succeeds; date and datetime accept iff time.Parse with the layouts 2006-01-02 / RFC 3339 accepts the decoded string; uri, email and uuid accept only after their parser accepted the decoded string. T3: Min/Max.Validate accept a probe iff probe >= min (> when exclusive) / probe <= max (< when exclusive) for all orderings and flag values, the probe being the parsed document number and the bound the rule's own number (exact comparison Number.Cmp is an ordering atom; the five comparison helpers are interpreted). T4: minLength/maxLength compare the length of the decoded string, minItems/maxItems the child count, precision the number of fractional digits of the parsed number, with the right comparator for every ordering. T6: a true exclusiveMinimum/Maximum makes exactly the matching bound exclusive, a false one is inert, the helper rule is removed. T9: nullable:false and const:false are removed by the compiler's filter and nothing else is; Const.Validate is inert when false and compares with the example when true. T14: ValidateLiteralValue runs every literal rule of the node exactly once on the document literal, except that a null admitted by nullable:true is accepted without running any other rule.",
+		Explain: "T-formats: the regex rule accepts iff an RE2 search in the decoded string succeeds; date and datetime accept iff time.Parse with the layouts 2006-01-02 / RFC 3339 accepts the decoded string; uri, email and uuid accept only after their parser accepted the decoded string. T3: Min/Max.Validate accept a probe iff probe >= min (> when exclusive) / probe <= max (< when exclusive) for all orderings and flag values, the probe being the parsed document number and the bound the rule's own number (exact comparison Number.Cmp is an ordering atom; the five comparison helpers are interpreted). T4: minLength/maxLength compare the length of the decoded string, minItems/maxItems the child count, precision the number of fractional digits of the parsed number, with the right comparator for every ordering. T6: a true exclusiveMinimum/Maximum makes exactly the matching bound exclusive, a false one is inert, the helper rule is removed. T9: nullable:false and const:false are removed by the compiler's filter and nothing else is; Const.Validate is inert when false and, when true, accepts iff the value equals the example as a JSON value (two strings decoded, two numerals by exact value, anything else by text). T14: ValidateLiteralValue runs every literal rule of the node exactly once on the document literal, except that a null admitted by nullable:true is accepted without running any other rule.",
 		Assume: []string{
 			"correctness of Number.Cmp's digit arithmetic, of string decoding, and of the regex/e-mail/URI/UUID/date predicates (standard library) is not decided",
 			"enum membership on decoded values is not decided",
@@ -146,8 +146,8 @@ func init() {
 	})
 	property(&Property{
 		ID:      "C10",
-		Rules:   []string{"SA-N", "FL-1", "FL-2", "EE-1", "T3", "T-cmp", "NZ-1"},
-		Explain: "NZ-1: the function that builds an exact Number clears the sign when no significant digit is left, so negative zero equals zero under the sign-first comparison. SA-N: the automaton of the numeral recogniser behind NewNumber (state functions interpreted abstractly, counters abstracted) is compared by product construction with the RFC 8259 number automaton over all 256 bytes in every reachable state pair, including where a numeral may end. FL-1: no library function holds a floating-point value or calls strconv float conversions/math/big (the only float helper, Number.ToFloat, has no library caller). T3: bounds are compared only through the exact comparison (Number.Cmp as an ordering atom) with the correct comparator.",
+		Rules:   []string{"SA-N", "FL-1", "FL-2", "EE-1", "T3", "T-cmp", "NZ-1", "T9"},
+		Explain: "T9 (const part): a const rule compares two numerals by exact value (Number.Cmp), not by spelling. NZ-1: the function that builds an exact Number clears the sign when no significant digit is left, so negative zero equals zero under the sign-first comparison. SA-N: the automaton of the numeral recogniser behind NewNumber (state functions interpreted abstractly, counters abstracted) is compared by product construction with the RFC 8259 number automaton over all 256 bytes in every reachable state pair, including where a numeral may end. FL-1: no library function holds a floating-point value or calls strconv float conversions/math/big (the only float helper, Number.ToFloat, has no library caller). T3: bounds are compared only through the exact comparison (Number.Cmp as an ordering atom) with the correct comparator.",
 		Assume: []string{
 			"correctness of the digit-string comparison and of exponent folding/zero trimming (arithmetic over unbounded digit strings), including negative zero, is not decided",
 		},
@@ -244,8 +244,8 @@ func init() {
 	})
 	property(&Property{
 		ID:      "C18",
-		Rules:   []string{"SH-2", "T-enum", "SA-E", "AL-2", "SA-E-deep", "RX-1"},
-		Explain: "RX-1: the example of a regex type is the generator's sample, unchanged. AL-2: the value list a named enum rule hands out (Values) is not rewritten by the loader that copies it into {enum: @E}. SH-2: inline enum lists and named enum rules insert their items through the same constraint.NewEnumItem / (*Enum).Append (shared normalisation and duplicate rejection), and the enum-rule scanner's duplicate key uses the same normalisation steps. SA-E: the enum-rule scanner accepts exactly RFC 8259 arrays of scalars (exponents aside) with the reference event stream, so Values lists the literals in source order with exact spans.",
+		Rules:   []string{"SH-2", "T-enum", "SA-E", "AL-2", "SA-E-deep", "RX-1", "SX-eol-enum"},
+		Explain: "SX-eol-enum: an item note of a named enum rule ends at its line break (an empty // used to swallow the next value). RX-1: the example of a regex type is the generator's sample, unchanged. AL-2: the value list a named enum rule hands out (Values) is not rewritten by the loader that copies it into {enum: @E}. SH-2: inline enum lists and named enum rules insert their items through the same constraint.NewEnumItem / (*Enum).Append (shared normalisation and duplicate rejection), and the enum-rule scanner's duplicate key uses the same normalisation steps. SA-E: the enum-rule scanner accepts exactly RFC 8259 arrays of scalars (exponents aside) with the reference event stream, so Values lists the literals in source order with exact spans.",
 		Assume: []string{
 			"the regex half (Go %q quoting when a regex type is turned into a schema, the third-party example generator, Len of the /P/ token) and the verdict equivalence itself are not decided",
 		},
